@@ -52,3 +52,6 @@ REGISTRY['C16'] = props_env.run
 
 import props_log
 REGISTRY['C19'] = props_log.run
+
+import props_intr
+REGISTRY['C14'] = props_intr.run
